@@ -328,17 +328,29 @@ def partyPrev (prev : CSeats) : Key → Seats
       | none => none)
   | .tie _ => []
 
-/-- `ByParty(overall_evaluator=ov, allocator=alloc).evaluate(votes, n_seats, prev_gains)` (core.py L1140-1196) on simple
-    votes, `max_seats = {}`: the overall evaluator sees neither previous gains nor caps. -/
+/-- `results[constituency][party] = cseats` for every constituency of one party's allocation (core.py, last loop of
+    `ByParty.evaluate`) -/
+def writeParty (party : Key) (allocated : Dist) (res : NDist) : NDist :=
+  allocated.foldl (fun res a => ndSet res a.1 (setK (ndGet res a.1) party a.2)) res
+
+/-- one party of the overall result: its votes and previous gains by constituency, the allocator, the rows -/
+def byPartyStep (alloc : PropEval) (cv : CVotes) (prev : CSeats) (acc : Except Err NDist) (e : Key × Nat) :
+    Except Err NDist := do
+  let results ← acc
+  let pv : Votes := cv.map (fun d => (d.1, partyVotesIn d.2 e.1))
+  let allocated ← alloc pv e.2 (partyPrev prev e.1) []
+  pure (writeParty e.1 allocated results)
+
+/-- `for constituency in votes.keys(): if constituency not in results: results[constituency] = {}` -/
+def addEmptyRows (cv : CVotes) (results : NDist) : NDist :=
+  cv.foldl (fun res d => if res.any (fun p => p.1 = Key.cand d.1) then res else res ++ [(Key.cand d.1, [])]) results
+
+/-- `ByParty(overall_evaluator=ov, allocator=alloc).evaluate(votes, n_seats, prev_gains)` on simple votes,
+    `max_seats = {}`: the overall evaluator sees neither previous gains nor caps. -/
 def byParty (ov alloc : PropEval) (cv : CVotes) (n : Nat) (prev : CSeats) : Except Err NDist := do
   let overall ← ov (voteTotals cv) n [] []
-  let step (acc : Except Err NDist) (e : Key × Nat) : Except Err NDist := do
-    let results ← acc
-    let pv : Votes := cv.map (fun d => (d.1, partyVotesIn d.2 e.1))
-    let allocated ← alloc pv e.2 (partyPrev prev e.1) []
-    pure (allocated.foldl (fun res a => ndSet res a.1 (setK (ndGet res a.1) e.1 a.2)) results)
-  let results ← overall.foldl step (.ok [])
-  pure (cv.foldl (fun res d => if res.any (fun p => p.1 = Key.cand d.1) then res else res ++ [(Key.cand d.1, [])]) results)
+  let results ← overall.foldl (byPartyStep alloc cv prev) (.ok [])
+  pure (addEmptyRows cv results)
 
 /-- a by-constituency `SeatCountCalculator.calculate` -/
 abbrev CCalc := CVotes → Nat → CSeats → Except Err Nat
